@@ -142,7 +142,7 @@ theorem saved_volume_files (i : FvInfo) (buf : Bytes) (files : List File) (v' : 
   obtain ⟨v'i, v'b, v'f⟩ := v'
   simp only [Fv.files] at hvf ⊢
   subst hvf
-  exact asmFiles_abs_settled files (canonFv_files _ hc) hs st v'f st1 hp hf hfs hg.2.2.2
+  exact asmFiles_abs_settled files (canonFv_files _ hc) hs st v'f st1 hp hf hfs hg.2.2
 
 /-! ### Insert -/
 
